@@ -154,6 +154,48 @@ def run_repr(ctx: Ctx) -> RuleResult:
         if not ok:
             res.finding(f, f.node, 'the newline character used for line counting is not chosen per representation '
                                    '(bytes vs str)', construct='newline-split')
+    # what the line counter is fed is a piece of the input itself (same representation as the newline it counts):
+    # a slice of the text, or the value matched from it -- never a display value (decoded character of an error)
+    LC = 'C:lark.lexer:LineCounter'
+    ty = ctx.typer
+    n_feed = 0
+    for f in repo.functions.values():
+        if not f.module.name.startswith('lark') or f.module.name.startswith('lark.tools'):
+            continue
+        env = None
+        for n in f.body_nodes():
+            if not (isinstance(n, ast.Call) and isinstance(n.func, ast.Attribute) and n.func.attr == 'feed' and n.args):
+                continue
+            if env is None:
+                env = ty.env(f)
+            if LC not in ty.expr(f, n.func.value, env):
+                continue
+            n_feed += 1
+            a = n.args[0]
+            ok, why = False, norm(a)
+            if isinstance(a, ast.Subscript) and isinstance(a.slice, ast.Slice):
+                bt = ty.expr(f, a.value, env)
+                # the sliced object is the text of a TextSlice (or the text itself)
+                ok = norm(a.value).endswith('.text') or 'b:str' in bt or 'b:bytes' in bt
+                why = 'slice of %s' % norm(a.value)
+            elif isinstance(a, ast.Name):
+                # value, type_ = <result of self.match(text, pos)>
+                for d in f.body_nodes():
+                    if isinstance(d, ast.Assign) and any(isinstance(t, ast.Tuple) and t.elts and isinstance(t.elts[0], ast.Name)
+                                                         and t.elts[0].id == a.id for t in d.targets):
+                        src = d.value
+                        if isinstance(src, ast.Name):
+                            for d2 in f.body_nodes():
+                                if isinstance(d2, ast.Assign) and any(isinstance(t, ast.Name) and t.id == src.id for t in d2.targets) \
+                                        and isinstance(d2.value, ast.Call) and isinstance(d2.value.func, ast.Attribute) \
+                                        and d2.value.func.attr == 'match':
+                                    ok, why = True, 'the text matched by %s' % norm(d2.value.func)
+            res.ob('%s %s' % (f.module.loc(n), f.qual), 'the line counter is fed a piece of the input text (%s)' % why, ok)
+            if not ok:
+                res.finding(f, n, 'LineCounter.feed(%s): the argument is not a slice of the input / the matched text; a value of another '
+                            'representation (the decoded character of an error message, an element of bytes) makes bytes input fail or '
+                            'miscount where str input works' % norm(a), construct='feed-arg:' + ('attr' if isinstance(a, ast.Attribute) else type(a).__name__))
+    res.require_instances(n_feed, 2, 'LineCounter.feed call sites')
     res.require_instances(n_sites, 8, 'representation-sensitive uses of input text')
     return res
 
@@ -220,6 +262,24 @@ def run_window(ctx: Ctx) -> RuleResult:
     res.ob('%s %s' % (pf.loc(), pf.qual), 'dynamic lexers refuse partial windows', ok)
     if not ok:
         res.finding(pf, pf.node, 'a partial TextSlice reaches a dynamic lexer, which scans the whole buffer', construct='dynamic-slice')
+    # ... and "partial" means exactly: not the whole buffer
+    ict = repo.func('lark.utils:TextSlice.is_complete_text')
+    sn_ = ict.self_name()
+    rets = [n for n in ict.body_nodes() if isinstance(n, ast.Return)]
+    got = set()
+    if len(rets) == 1 and isinstance(rets[0].value, ast.BoolOp) and isinstance(rets[0].value.op, ast.And):
+        for c in rets[0].value.values:
+            if isinstance(c, ast.Compare) and len(c.ops) == 1 and isinstance(c.ops[0], ast.Eq):
+                got.add(frozenset((norm(c.left), norm(c.comparators[0]))))
+            else:
+                got.add(frozenset(('?', norm(c))))
+    want = {frozenset(('%s.start' % sn_, '0')), frozenset(('%s.end' % sn_, 'len(%s.text)' % sn_))}
+    ok = got == want
+    res.ob('%s %s' % (ict.loc(), ict.qual), 'is_complete_text == (start == 0 and end == len(text))', ok)
+    if not ok:
+        res.finding(ict, ict.node, 'TextSlice.is_complete_text is not exactly `start == 0 and end == len(text)`: a proper window passes '
+                                   'for the whole text and reaches code that scans the whole buffer (dynamic lexers, error context)',
+                    construct='is-complete-text')
     # TextSlice normalisation
     ts = repo.cls('lark.utils:TextSlice')
     from ..exprs import in_bool_context
